@@ -5,7 +5,7 @@
    of Full Sensor Records decode; [walkable]: non-empty and only the first
    record may carry ID 0000h (which Get SDR reserves for "the first record"). *)
 From BMC Require Import Base Prim Layers Proc Dispatch SdrProofs.
-From BMCProps Require Import Tie.
+From BMCProps Require Import TieProc.
 
 (* the walk returns exactly the Full Sensor Records, in storage order, each under the record's OWN ID
    (also when the first record's ID is not 0), each field the reference decoding of the body; the fuel
